@@ -1245,6 +1245,87 @@ func (p *pipeGen) failedResolutionCase() {
 	p.op("pipe dump")
 }
 
+// storeSeamCase: the resolver's own store seam (Store.SetFromResponse: DS/DNSKEY sub-lookups): the caller names the
+// CD partition; the response header may carry the other bit (an upstream leg that flipped it). Then both partitions ask.
+func (p *pipeGen) storeSeamCase() {
+	r := p.r
+	p.start()
+	g := genGid(r)
+	g.scope = netip.Prefix{}
+	if r.Chance(1, 2) {
+		g.qtype = vlib.Pick(r, []int{43, 48})
+	}
+	keyCD := r.Bool()
+	g.cd = vlib.Pick(r, []bool{keyCD, !keyCD}) // the CD bit on the response header
+	p.op("pipe sfr %s %d %s", g.tok(), p.nextID(), vlib.B(keyCD))
+	for _, cd := range []bool{keyCD, !keyCD} {
+		x := g
+		x.cd = cd
+		x.ls = flipCase(r, g.ls)
+		p.getAll(x, netip.Prefix{})
+	}
+	if r.Bool() {
+		// the other partition is stored too, the other way round
+		h := g
+		h.cd = !g.cd
+		p.op("pipe sfr %s %d %s", h.tok(), p.nextID(), vlib.B(!keyCD))
+		for _, cd := range []bool{keyCD, !keyCD} {
+			x := g
+			x.cd = cd
+			p.getAll(x, netip.Prefix{})
+		}
+	}
+	p.op("pipe dump")
+}
+
+// zoneFailureCase: zone reachability failures recorded by the resolver (Store.RecordZoneFailure / ClearZoneFailure)
+// while resolving questions of different classes; names at and below the zone asked in each class.
+func (p *pipeGen) zoneFailureCase() {
+	r := p.r
+	p.start()
+	zone := genLabels(r)
+	if r.Chance(1, 5) {
+		zone = nil // the root
+	}
+	name := append([][]byte{genLabel(r)}, zone...)
+	if len(wireOf(name)) > 255 {
+		name = zone
+	}
+	classes := []int{1, 3, 4, 255}
+	c1 := vlib.Pick(r, classes)
+	c2 := c1
+	for c2 == c1 {
+		c2 = vlib.Pick(r, classes)
+	}
+	qt := vlib.Pick(r, qtypes)
+	look := func() {
+		for _, c := range []int{c1, c2, 1} {
+			for _, ls := range [][][]byte{name, flipCase(r, name), zone} {
+				g := gid{ls: ls, qtype: qt, class: c, cd: r.Chance(1, 3)}
+				q := fmt.Sprintf("%s,%d,%d,%s", nameTok(g.ls), g.qtype, g.class, vlib.B(g.cd))
+				p.op("pipe get %s %s %s", vlib.Pick(r, []string{"msg", "wire", "store"}), q, fmtScope(clientFor(r, netip.Prefix{})))
+			}
+			p.op("pipe fget %s %s,%d,%d,f,-", vlib.Pick(r, []string{"msg", "wire"}), nameTok(name), qt, c)
+		}
+	}
+	p.op("pipe zfail %s,0,%d %s %d", nameTok(name), c1, nameTok(flipCase(r, zone)), p.nextID())
+	look()
+	if r.Bool() {
+		// the zone answers again for a question of ANOTHER class: that clears only that class' state
+		p.op("pipe zclear %s,0,%d %s 0", nameTok(name), c2, nameTok(zone))
+		look()
+	}
+	if r.Bool() {
+		p.op("pipe zfail %s,0,%d %s %d", nameTok(name), c2, nameTok(zone), p.nextID())
+		p.op("pipe zclear %s,0,%d %s 0", nameTok(name), c1, nameTok(zone))
+		look()
+	}
+	if r.Chance(1, 3) {
+		p.purge(gid{ls: zone, qtype: qt, class: vlib.Pick(r, []int{c1, c2})})
+	}
+	p.op("pipe dump")
+}
+
 // purgeCase: shared + scoped variants, case mixes, a squatter under the purged
 // key, and Unicode look-alike names in the scoped sweep.
 func (p *pipeGen) purgeCase() {
@@ -1358,7 +1439,11 @@ func gen(r *vlib.R, n int, tier string, emit func(string)) {
 	p := &pipeGen{r: r, emit: emit}
 	for n > 0 {
 		p.n = 0
-		switch k := r.Intn(36); {
+		switch k := r.Intn(40); {
+		case k >= 36 && k < 38:
+			p.storeSeamCase()
+		case k >= 38:
+			p.zoneFailureCase()
 		case k >= 32 && k < 34:
 			p.allowListCase()
 		case k >= 34:
